@@ -91,6 +91,8 @@ def gen_leaf(rng, what, inq=None, kind=None):
         if what is None or isinstance(what, (bool, int, str)):
             base = str(what)
         if base is not None and rng.random() < 0.8:
+            if isinstance(what, (int, bool)) and rng.random() < 0.5:
+                return ('regex', pick(rng, ['^%s$', '%s$', '(%s)$']) % __import__('re').escape(base))
             return ('regex', regex_for(rng, base))
         return ('regex', regex_for(rng, gen_str(rng)))
     if kind == 'cidr':
